@@ -79,7 +79,8 @@ def _retry_contract(kind):
 
         def elem(v):
             if kind == "models":
-                return SOpaque("model", cls=object, attrs={"name": SStr(item_name(v.t)),
+                from pyvc.absdata import UnknownSet
+                return SOpaque("model", cls=object, attrs={"name": SStr(item_name(v.t)), "roots": UnknownSet("model.roots"),
                                                            "class_info": SOpaque("ci", attrs={"name": SStr(I.fresh("cls", z3.StringSort()))})})
             if I.branch(is_ref(v.t)):
                 data = SObj(oai.Reference, {"ref": SStr(I.fresh("ref", z3.StringSort()))})
